@@ -53,20 +53,27 @@ func New[H Hash](options ...func(config *Config[H])) (*DBFT[H], error) {
 func (d *DBFT[H]) addTransaction(tx Transaction[H]) {
 	d.Transactions[tx.Hash()] = tx
 	if d.hasAllTransactions() {
-		if d.IsPrimary() || d.Context.WatchOnly() {
-			return
-		}
-
-		if !d.createAndCheckBlock() {
-			return
-		}
-
-		d.verifyPreCommitPayloadsAgainstPreBlock()
-
-		d.extendTimer(2)
-		d.sendPrepareResponse()
-		d.checkPrepare()
+		d.onProposalCompleted()
 	}
+}
+
+// onProposalCompleted is called when the last missing transaction of the
+// accepted proposal is obtained: a backup checks the block and answers with
+// PrepareResponse (or ChangeView if the block is invalid).
+func (d *DBFT[H]) onProposalCompleted() {
+	if d.IsPrimary() || d.Context.WatchOnly() {
+		return
+	}
+
+	if !d.createAndCheckBlock() {
+		return
+	}
+
+	d.verifyPreCommitPayloadsAgainstPreBlock()
+
+	d.extendTimer(2)
+	d.sendPrepareResponse()
+	d.checkPrepare()
 }
 
 // Start initializes dBFT instance and starts the protocol if node is primary.
